@@ -20,6 +20,7 @@ from .. import common, ptydrv
 ALPHA = [' ', "'", '"', '$', '*', '?', '[', ']', '{', '}', ',', '~', '#', '|', '&', ';', '<', '>', '(', ')', '\\', '!', '`', '=', '%', '^', 'é']
 CTX = {'U': '', 'S': "'", 'D': '"', 'C': '', 'CS': "'", 'CD': '"'}
 # where the entry lives and how that is typed in front of the prefix: working directory, sub-directory, home (~), variable
+VARIANTS = ['plain', 'after-argument-ending-in-escaped-backslash', 'after-single-quoted-argument', 'after-double-quoted-argument', 'after-argument-with-escaped-blank', 'one-more-character-typed']
 LOCS = [('cwd', ''), ('subdirectory', 'sd/'), ('home', '~/'), ('variable', '$VDIR/'), ('subdirectory-with-blank', 's d/')]
 
 
@@ -42,23 +43,26 @@ def settle(s, quiet=0.04, limit=2.0):
 
 def run_batch(job):
     """a failure inside a batch is believed only if it is reproduced alone in a fresh session and directory"""
-    ctx, names, loc = job
+    ctx, names, loc, variant = job
     res = _run_batch(job)
     if len(names) == 1:
         return res
     out = []
-    for (c, name, kind, info, lc) in res:
-        if kind == 'ok':
-            out.append((c, name, kind, info, lc))
+    for r in res:
+        if r[2] == 'ok':
+            out.append(r)
         else:
-            out.extend(_run_batch((ctx, [name], loc)))
+            out.extend(_run_batch((ctx, [r[1]], loc, variant)))
     return out
 
 
 def _run_batch(job):
-    ctx, names, loc = job
+    ctx, names, loc, variant = job
     d = common.fresh_case_dir()
     out = []
+    # what else is on the line (same variants as the in-process layer): an argument in front of the word, or one more
+    # character of the name typed before TAB
+    before_typed, before_args = {0: ('', []), 1: ('x\\\\ ', ['x\\']), 2: ("'q' ", ['q']), 3: ('"d q" ', ['d q']), 4: ('a\\ b ', ['a b']), 5: ('', [])}[variant]
     try:
         w = os.path.join(d, 'w')
         os.makedirs(w)
@@ -84,7 +88,7 @@ def _run_batch(job):
                     s.close()
                 s = ptydrv.Session(d, cwd=w, env={'VDIR': vdir})
                 if not s.start():
-                    out.append((ctx, name, 'machinery', 'no prompt', loc))
+                    out.append((ctx, name, 'machinery', 'no prompt', loc, variant))
                     s.close()
                     s = None
                     continue
@@ -93,10 +97,14 @@ def _run_batch(job):
             nrec = len(s.records())
             nprompt = s.prompts()
             typed_loc = LOCS[loc][1].replace(' ', '\\ ') if ctx in ('U', 'C') else LOCS[loc][1]     # a blank is typed escaped outside quotes
+            extra = ''
+            if variant == 5 and name:
+                c0 = name[0]
+                extra = c0 if (CTX[ctx] or c0.isalnum()) else '\\' + c0
             if ctx in ('C', 'CS', 'CD'):
-                s.send('cd ' + CTX[ctx] + typed_loc + pre + '\t')
+                s.send('cd ' + CTX[ctx] + typed_loc + pre + extra + '\t')
             else:
-                s.send('vh-argv ' + CTX[ctx] + typed_loc + pre + '\t')
+                s.send('vh-argv ' + before_typed + CTX[ctx] + typed_loc + pre + extra + '\t')
             settle(s)
             s.send('\r')
             ok = s.wait(lambda: s.prompts() > nprompt, 3.0)
@@ -105,7 +113,7 @@ def _run_batch(job):
                 s.send('\x03')
                 s.wait(lambda: s.prompts() > nprompt, 2.0)
                 shown_txt = s.buf[-200:].decode('utf-8', 'replace')
-                out.append((ctx, name, 'completed-line-not-accepted', shown_txt, loc))
+                out.append((ctx, name, 'completed-line-not-accepted', shown_txt, loc, variant))
                 if not s.alive() or s.prompts() <= nprompt:
                     s.close()
                     s = None
@@ -120,15 +128,15 @@ def _run_batch(job):
                 s.send('cd ' + common.shquote(w) + '\r')
                 s.wait(lambda: s.prompts() > n3, 3.0)
                 if cwd == os.path.join(where, full):
-                    out.append((ctx, name, 'ok', None, loc))
+                    out.append((ctx, name, 'ok', None, loc, variant))
                 else:
-                    out.append((ctx, name, 'wrong-directory', cwd, loc))
+                    out.append((ctx, name, 'wrong-directory', cwd, loc, variant))
             else:
                 recs = [r for r in s.records()[nrec:] if r.get('k') == 'argv']
-                if len(recs) == 1 and recs[0]['argv'] == [shown + full]:
-                    out.append((ctx, name, 'ok', None, loc))
+                if len(recs) == 1 and recs[0]['argv'] == before_args + [shown + full]:
+                    out.append((ctx, name, 'ok', None, loc, variant))
                 else:
-                    out.append((ctx, name, 'wrong-argv', [r['argv'] for r in recs], loc))
+                    out.append((ctx, name, 'wrong-argv', [r['argv'] for r in recs], loc, variant))
         if s is not None:
             s.close()
         return out
@@ -185,9 +193,9 @@ def run(rep, tier):
     names2 = [''.join(t) for t in itertools.product(ALPHA, repeat=2)]
     jobs = []
 
-    def add(ctx, names, loc=0):
+    def add(ctx, names, loc=0, variant=0):
         for i in range(0, len(names), 60):
-            jobs.append((ctx, names[i:i + 60], loc))
+            jobs.append((ctx, names[i:i + 60], loc, variant))
     # names built from paired / structured constructs (a command substitution, a brace group, a quoted part ...)
     structured = ['`x`', '$(x)', '${x}', '$x', '{a,b}', '{1..2}', '[x]', "'x'", '"x"', '~x', 'x~', '*x*', '!!', '!x', '#x', 'x#y', 'a b', ' x', 'x ',
                   '-x', 'x=y', 'x|y', 'x&y', 'x;y', 'x>y', 'x<y', '(x)', 'x\\y', '\\x', 'x\\', '$$', '$?', 'é`x`', "`x`'", '"`x`', '$(x)"', "it's",
@@ -203,6 +211,12 @@ def run(rep, tier):
             if (ctx == 'S' and loc in (2, 3)) or (ctx == 'D' and loc == 2):
                 continue      # `~` / `$VDIR` are not expanded inside these quotes
             add(ctx, names1 + (structured if tier == 'thorough' or ctx == 'U' else []), loc)
+    # line variants (bind the in-process layer's variants to the real editor): an argument in front of the completed word,
+    # one more character of the name typed by the user
+    for variant in (1, 2, 3, 4, 5):
+        add('U', names1, 0, variant)
+    for ctx in ('S', 'D'):
+        add(ctx, [n for n in names1 if n not in ("'", '"', '$', '`', '\\', '!')], 0, 5)
     add('U', names2)
     hot = [n for n in names2 if any(c in n for c in '\'"\\$ `!')]
     if tier == 'thorough':
@@ -215,9 +229,9 @@ def run(rep, tier):
     states = set()
     pty_verdicts = []
     for batch in common.pmap(run_batch, jobs, chunk=1):
-        for ctx, name, kind, info, loc in batch:
+        for ctx, name, kind, info, loc, variant in batch:
             if kind != 'machinery':
-                pty_verdicts.append((ctx, name, kind, loc))
+                pty_verdicts.append((ctx, name, kind, loc, variant))
             rep.evaluations += 1
             rep.transitions += 1
             rep.nontrivial += 1
@@ -230,7 +244,7 @@ def run(rep, tier):
             else:
                 rep.outcome('deviation:' + kind)
                 ctxname = {'U': 'unquoted', 'S': 'single-quote', 'D': 'double-quote', 'C': 'cd', 'CS': 'cd-single-quote', 'CD': 'cd-double-quote'}[ctx]
-                locs = '' if loc == 0 else ':in-' + LOCS[loc][0]
+                locs = ('' if loc == 0 else ':in-' + LOCS[loc][0]) + ('' if variant == 0 else ':' + VARIANTS[variant])
                 rep.violation('%s:%s%s:[%s]' % (kind, ctxname, locs, name_class(name)), {'context': ctxname, 'location': LOCS[loc][0], 'entry_name': 'PREFIX' + name, 'typed': ('cd ' if ctx in ('C', 'CS', 'CD') else 'vh-argv ') + CTX.get(ctx, '') + LOCS[loc][1] + 'PREFIX<TAB><Enter>'},
                               {'argv': ['PREFIX' + name]}, info, repro='create the entry, type the prefix after `vh-argv %s`, press TAB and Enter in an interactive cicada' % CTX.get(ctx, ''))
     for cmd, typed, missing, extra, shown in common.pmap(run_candidates, [0], chunk=1)[0]:
@@ -274,7 +288,8 @@ def replay(rec):
     ctx = {'unquoted': 'U', 'single-quote': 'S', 'double-quote': 'D', 'cd': 'C', 'cd-single-quote': 'CS', 'cd-double-quote': 'CD'}[c['context']]
     loc = [l[0] for l in LOCS].index(c.get('location', 'cwd'))
     name = c['entry_name'][len('PREFIX'):]
-    res = _run_batch((ctx, [name], loc))
+    variant = VARIANTS.index(c['also_on_the_line']) if c.get('also_on_the_line') in VARIANTS else 0
+    res = _run_batch((ctx, [name], loc, variant))
     for r in res:
         print(r)
     if any(r[2] not in ('ok', 'machinery') for r in res):
